@@ -1,7 +1,8 @@
 import SamVerif.Props.C12
 import SamVerif.Props.C12b
+import SamVerif.Props.C12c
 /-! Axiom audit of every C12 property theorem (parsed by vlib/common.py). -/
-open SamVerif.ErrorSet SamVerif.Layout
+open SamVerif.ErrorSet SamVerif.Layout SamVerif.MirRename
 #print axioms errorset_merge_ac
 #print axioms errorset_merge_assoc
 #print axioms errorset_extensional
@@ -19,3 +20,5 @@ open SamVerif.ErrorSet SamVerif.Layout
 #print axioms layout_order_independent_counterexample
 #print axioms layout_loop_partial
 #print axioms layout_loop_counterexample
+#print axioms exec_ren
+#print axioms mir_rename_invariant
